@@ -2,11 +2,19 @@
 //!
 //! `exec_panic <casefile>` is a SUPERVISOR: it feeds the case lines one by one to a worker process
 //! (`exec_panic --worker`, the same binary) and watches it:
-//!   * no answer within the per-case limit (`VERIF_PANIC_CASE_MS`, default 4000 ms)  -> `<id> hang`
+//!   * the worker has burnt more than `VERIF_PANIC_CPU_MS` (default 20000 ms) of CPU time (utime + stime of
+//!     /proc/<pid>/stat) on the case                                                    -> `<id> hang`
+//!     (CPU time, not wall time: a loaded machine must not turn a slow case into a hang; a wall backstop of 10x the
+//!     CPU limit applies only while the CPU time is NOT advancing, i.e. the worker is blocked)
 //!   * the worker died (abort on allocation failure, stack overflow, signal)           -> `<id> crash <why>`
 //! and restarts the worker for the next case.  The worker caps its own address space
 //! (`VERIF_PANIC_MEM_MB`, default 4096) so that "exhausts memory" is observed promptly as a panic /
 //! abort kind instead of taking the machine down.
+//! A case whose op carries the prefix `L/` (after an optional `R/`) belongs to the termination stream: it may take
+//! long and gets the CPU limit `VERIF_PANIC_LONG_MS` (default 6x the normal one).  Every answer that took more than 10 s
+//! of wall time is annotated ` #slow=<seconds>`, every answer that cost more than 1 s of CPU ` #cpu=<ms>` (annotations are
+//! not compared), so slow-but-terminating is distinguishable from a hang and growth rates can be read off the output.
+//! While waiting the supervisor prints `# alive` lines so that the caller sees its output grow.
 //! A case whose op is prefixed with `R/` is routed to the worker of the RELEASE build
 //! (`VERIF_PANIC_RELEASE_EXE`, default `<dir>/../release/exec_panic`); all others run in this build.
 #[path = "../ops_panic.rs"]
@@ -27,6 +35,22 @@ extern "C" {
     fn setrlimit(resource: i32, rlim: *const RLimit) -> i32;
 }
 const RLIMIT_AS: i32 = 9; // Linux
+extern "C" {
+    fn sysconf(name: i32) -> i64;
+}
+const SC_CLK_TCK: i32 = 2; // Linux
+
+/// CPU time (user + system) of a process in milliseconds, from /proc/<pid>/stat
+fn cpu_ms(pid: u32) -> Option<u64> {
+    let s = std::fs::read_to_string(format!("/proc/{}/stat", pid)).ok()?;
+    let rest = &s[s.rfind(')')? + 1..];
+    let f: Vec<&str> = rest.split_whitespace().collect();
+    // after the command: state(0) ppid pgrp session tty tpgid flags minflt cminflt majflt cmajflt utime(11) stime(12)
+    let ut: u64 = f.get(11)?.parse().ok()?;
+    let st: u64 = f.get(12)?.parse().ok()?;
+    let tck = unsafe { sysconf(SC_CLK_TCK) }.max(1) as u64;
+    Some((ut + st) * 1000 / tck)
+}
 
 fn worker() {
     let mb: u64 = std::env::var("VERIF_PANIC_MEM_MB").ok().and_then(|s| s.parse().ok()).unwrap_or(4096);
@@ -133,7 +157,8 @@ fn supervisor(path: &str) {
     let rel = std::env::var("VERIF_PANIC_RELEASE_EXE").map(std::path::PathBuf::from).unwrap_or_else(|_| {
         me.parent().unwrap().parent().unwrap().join("release").join("exec_panic")
     });
-    let ms: u64 = std::env::var("VERIF_PANIC_CASE_MS").ok().and_then(|s| s.parse().ok()).unwrap_or(4000);
+    let ms: u64 = std::env::var("VERIF_PANIC_CPU_MS").ok().and_then(|s| s.parse().ok()).unwrap_or(20_000);
+    let long_ms: u64 = std::env::var("VERIF_PANIC_LONG_MS").ok().and_then(|s| s.parse().ok()).unwrap_or(6 * ms);
     let f = std::fs::File::open(path).expect("cannot open case file");
     let out = std::io::stdout();
     let mut out = out.lock();
@@ -164,6 +189,14 @@ fn supervisor(path: &str) {
             }
             None => (0usize, me.clone()),
         };
+        let mut limit = ms;
+        let stripped;
+        if let Some(op) = toks[1].strip_prefix("L/") {
+            stripped = op.to_string();
+            toks[1] = &stripped;
+            limit = long_ms;
+        }
+        let t0 = std::time::Instant::now();
         if slot == 1 && !exe.exists() {
             writeln!(out, "{} bad-op release-worker-missing", id).unwrap();
             continue;
@@ -176,22 +209,62 @@ fn supervisor(path: &str) {
             writeln!(w.stdin, "{}", toks.join(" ")).and_then(|_| w.stdin.flush()).is_ok()
         };
         let w = workers[slot].as_mut().unwrap();
+        let pid = w.child.id();
+        let cpu0 = cpu_ms(pid).unwrap_or(0);
+        let mut cpu_used: u64 = 0;
         let verdict = if !sent {
             Err(true)
         } else {
-            match w.rx.recv_timeout(Duration::from_millis(ms)) {
-                Ok(l) => Ok(l),
-                Err(RecvTimeoutError::Timeout) => Err(false),
-                Err(RecvTimeoutError::Disconnected) => Err(true),
+            let mut last_cpu = cpu0;
+            let mut last_progress = std::time::Instant::now();
+            let mut last_beat = std::time::Instant::now();
+            loop {
+                match w.rx.recv_timeout(Duration::from_millis(200)) {
+                    Ok(l) => {
+                        cpu_used = cpu_ms(pid).unwrap_or(last_cpu).saturating_sub(cpu0);
+                        break Ok(l);
+                    }
+                    Err(RecvTimeoutError::Disconnected) => break Err(true),
+                    Err(RecvTimeoutError::Timeout) => {
+                        let c = cpu_ms(pid).unwrap_or(last_cpu);
+                        if c > last_cpu {
+                            last_cpu = c;
+                            last_progress = std::time::Instant::now();
+                        }
+                        cpu_used = c.saturating_sub(cpu0);
+                        if cpu_used >= limit {
+                            break Err(false);
+                        }
+                        // blocked (no CPU progress) for 10x the limit
+                        if last_progress.elapsed() >= Duration::from_millis(10 * limit) {
+                            break Err(false);
+                        }
+                        if last_beat.elapsed() >= Duration::from_secs(15) {
+                            writeln!(out, "# alive {} cpu_ms={}", id, cpu_used).unwrap();
+                            out.flush().unwrap();
+                            last_beat = std::time::Instant::now();
+                        }
+                    }
+                }
             }
         };
         match verdict {
-            Ok(l) => writeln!(out, "{}", l).unwrap(),
+            Ok(l) => {
+                let secs = t0.elapsed().as_secs();
+                let mut l = l;
+                if cpu_used >= 1000 {
+                    l.push_str(&format!(" #cpu={}", cpu_used));
+                }
+                if secs >= 10 {
+                    l.push_str(&format!(" #slow={}", secs));
+                }
+                writeln!(out, "{}", l).unwrap()
+            }
             Err(false) => {
                 let _ = w.child.kill();
                 let _ = w.child.wait();
                 workers[slot] = None;
-                writeln!(out, "{} hang", id).unwrap();
+                writeln!(out, "{} hang #cpu={}", id, cpu_used).unwrap();
             }
             Err(true) => {
                 let why = why_dead(w);
